@@ -299,8 +299,8 @@ def run_hist(case):
 
 
 def legs(tier):
-    return [Leg('matrix', _base(), run_matrix, 2500, 100000, max_shrink_buckets=8),
-            Leg('history', _case_hist(), run_hist, 600, 24000, max_shrink_buckets=6)]
+    return [Leg('matrix', _base(), run_matrix, 10000, 100000, max_shrink_buckets=8),
+            Leg('history', _case_hist(), run_hist, 2400, 24000, max_shrink_buckets=6)]
 
 
 REGIONS = {}
